@@ -582,3 +582,29 @@ func (g *G) order() {
 	o = append(tds, o...)
 	m.Order = o
 }
+
+// DrawNoise draws spelling noise for the text emitter.
+func DrawNoise(rt *rapid.T) am.Noise {
+	return am.Noise{
+		AlwaysQuote:     rapid.IntRange(0, 3).Draw(rt, "n.quote") == 0,
+		EscapePrintable: rapid.IntRange(0, 3).Draw(rt, "n.escape") == 0,
+		Explicit:        rapid.Bool().Draw(rt, "n.explicit"),
+		Comments:        rapid.IntRange(0, 2).Draw(rt, "n.comments") == 0,
+		FullCallType:    rapid.Bool().Draw(rt, "n.fullcalltype"),
+		Indent:          rapid.SampledFrom([]string{"", "\t", "        ", " "}).Draw(rt, "n.indent"),
+	}
+}
+
+// SparseMetadataIDs renumbers the module's metadata nodes with a drawn injective map (sparse, permuted IDs).
+func SparseMetadataIDs(rt *rapid.T, m *am.Module) {
+	if len(m.MDs) == 0 {
+		return
+	}
+	perm := rapid.Permutation(m.MDs).Draw(rt, "mdperm")
+	id := 0
+	for _, n := range perm {
+		id += rapid.IntRange(0, 3).Draw(rt, "mdgap")
+		n.ID = id
+		id++
+	}
+}
